@@ -655,7 +655,7 @@ def run_check(prop, tier, seed, replay):
                     f.write(json.dumps(sc) + "\n")
             script_files.append(("scenarios", pth, 4))
         # 3d. systematic forgotten-unadopt templates (tools/elide_scen.py), several heap layouts each
-        if "elide" in P["fams"]:
+        if "elide" in P["fams"] and not os.environ.get("VERIF_SKIP_TEMPLATES"):   # (knob used to test 6a alone)
             import elide_scen
             pth = os.path.join(wd, "elidescen.ndjson")
             with open(pth, "w") as f:
@@ -756,6 +756,69 @@ def run_check(prop, tier, seed, replay):
         running.append((h, mode, t))
     for h, m2, t2 in running:
         collect(h, m2, t2)
+
+    # 6a. drift-directed search.  Conform rejected a trace but the Monitor saw no violation: the
+    # library's internal state left the specification's at a known call of a known history.
+    # That is not a verdict -- but it says where to look: the histories in which it happened are
+    # cut at several points, continued with a stress tail (fresh objects, a clone/drop of every
+    # handle -- each runs a trace -- upgrades, teardown in random orders) and replayed under
+    # several heap layouts; the Monitor judges those traces like any other.  Nothing here runs
+    # on a tree that conforms, and only the Monitor's verdicts count.
+    strict_now = [p for p in P["monitor"] if p != P.get("known_prop")]
+    if drift and not replay and not any(v["prop"] in strict_now for v in viols):
+        rr = random.Random(seed + 17)
+        amp = []
+        for d in drift[:6]:
+            cur = None
+            with open(d["trace"]["trace"]) as f:
+                for i, l in enumerate(f, 1):
+                    if i > d["line"]:
+                        break
+                    if l.startswith('{"k":"reset"'):
+                        cur = json.loads(l)["script"]
+            if cur is None:
+                continue
+            sl = open(d["trace"]["scripts"]).read().splitlines()
+            if cur >= len(sl):
+                continue
+            ops_ = json.loads(sl[cur])
+            mk = lambda name, a=0, b=0: dict(op=name, a=a, b=b, d=dict(op="none", x=0, y=0))
+            cuts = sorted(set([len(ops_)] + [max(1, len(ops_) * j // 6) for j in range(1, 6)]))
+            for cut in cuts:
+                pre = ops_[:cut]
+                ids = [o["a"] for o in pre if o["op"] == "New"]
+                nxt = len(ids) + sum(1 for o in pre if o["op"].startswith("MakeMut")) + 1
+                for rep_ in range(3):
+                    tail = [mk("New", nxt), mk("New", nxt + 1)]
+                    order = ids[:]
+                    rr.shuffle(order)
+                    for x in order:
+                        tail += [mk("CloneRoot", x), mk("DropRoot", x), mk("Upgrade", x)]
+                    for rnd in range(4):
+                        rr.shuffle(order)
+                        tail += [mk("DropRoot", x) for x in order]
+                        if rnd == 1:
+                            tail += [mk("CloneRoot", nxt), mk("DropRoot", nxt), mk("Upgrade", order[0])]
+                    tail += [mk("DropDetached", x) for x in order] + [mk("WeakDrop", x) for x in order] * 2
+                    tail += [mk("DropRoot", nxt), mk("DropRoot", nxt + 1)]
+                    amp.append((pre + tail, d["trace"]["nobj"] + 2))
+        if amp:
+            sp = os.path.join(wd, "driftamp.ndjson")
+            tp = os.path.join(wd, "driftamp.trace")
+            with open(sp, "w") as f:
+                for ops_, _ in amp:
+                    f.write(json.dumps(ops_, separators=(",", ":")) + "\n")
+            rc, out, dt = harness(binp, ["replay", sp, tp, "4"])
+            if rc == 0:
+                t = dict(label="drift-directed", scripts=sp, trace=tp, nobj=max(n for _, n in amp), n=len(amp))
+                h = start_trace_tlc("mon", tp, t["nobj"], VARIANT, P["monitor"], "%s_mon_driftamp" % prop)
+                collect(h, "mon", t)
+                nscripts += len(amp)
+                log("drift-directed search: %d continuations of %d drifting histories judged" % (len(amp), min(6, len(drift))))
+            elif rc < 0 or rc == 101:
+                done = sum(1 for l in open(tp) if l.startswith('{"k":"reset"')) // 4 if os.path.exists(tp) else 0
+                if done < len(amp):
+                    crashes.append(dict(script=json.dumps(amp[done][0], separators=(",", ":")), signal=(-rc if rc < 0 else 101), label="drift-directed"))
 
     # 6b. child mode (C16): every script in which the harness predicted a process abort is run
     # again in a child process that really makes the call; the parent appends how it ended
